@@ -99,7 +99,7 @@ func (rq c17Req) query() string {
 // c17WebSession starts ONE web UI (driver.PProf -http with the HTTPServer hook) and issues the
 // requests in order on its /flamegraph handler; it returns the JSON text embedded in each page,
 // or a short error word + detail.
-func c17WebSession(p *profile.Profile, reqs []c17Req) (out [][]byte, werr string) {
+func c17WebSession(p *profile.Profile, reqs []c17Req, trimPath, sourcePath string) (out [][]byte, werr string) {
 	hooked := false
 	ui := &c17UI{}
 	server := func(a *plugin.HTTPServerArgs) error {
@@ -134,8 +134,10 @@ func c17WebSession(p *profile.Profile, reqs []c17Req) (out [][]byte, werr string
 	pn := c17Safely(func() {
 		err = driver.PProf(&plugin.Options{
 			Flagset: c17Flags{
-				bools:   map[string]bool{"no_browser": true},
-				strings: map[string]string{"http": "localhost:1234"},
+				bools: map[string]bool{"no_browser": true},
+				// the driver's configuration is process-wide and flag defaults are its current values:
+				// trim_path and source_path are always given explicitly
+				strings: map[string]string{"http": "localhost:1234", "trim_path": trimPath, "source_path": sourcePath},
 				args:    []string{"c17-profile"},
 			},
 			Fetch:      c17Fetcher{p},
